@@ -167,6 +167,14 @@ Theorem C07_item_containers_consistent_after_every_history : forall pen ops,
   (forall i it, get_item w i = Some it -> i_loaded it = None -> i_autos it = []).
 Proof. exact item_containers_consistent. Qed.
 
+(* the fit sets of solar systems: a fit refers to solar system x exactly when x lists it, and no solar system
+   lists a fit twice (so a fit is in at most one solar system) *)
+Theorem C07_solar_system_fit_sets_consistent_after_every_history : forall pen ops,
+  ops_clean3b (init_sys pen) ops = true ->
+  let w := s_w (run (init_sys pen) ops) in
+  (forall f x, fit_solsys w f = Some x <-> In f (ss_fit_list w x)) /\ (forall x, NoDup (ss_fit_list w x)).
+Proof. exact solar_system_links_consistent. Qed.
+
 (* non-vacuity: the history of props/C05.v (a module with a charge and an autocharge) is inside the hypothesis *)
 Example C07_item_containers_nonvacuous :
   ops_clean3b (init_sys []) c07c_demo = true /\
@@ -227,3 +235,4 @@ Print Assumptions C07_load_unload_keep_references.
 Print Assumptions C07_containers_consistent_after_every_history.
 Print Assumptions C07_every_operation_keeps_consistency.
 Print Assumptions C07_item_containers_consistent_after_every_history.
+Print Assumptions C07_solar_system_fit_sets_consistent_after_every_history.
